@@ -135,6 +135,57 @@ def check_tunnel():
     return probs
 
 
+def check_options():
+    """options -> proxy decision, end to end through proxy_info(**options) and _get_addrinfo_list (the resolver is replaced by a
+    recorder): which (host, port) is dialled and whether a CONNECT tunnel is requested."""
+    import websocket._http as h
+    probs = []
+    saved = {k: os.environ.pop(k, None) for k in ("http_proxy", "HTTP_PROXY", "https_proxy", "HTTPS_PROXY", "no_proxy", "NO_PROXY")}
+    real = h.socket.getaddrinfo
+    asked = []
+    h.socket.getaddrinfo = lambda host, port, *a, **k: (asked.append((host, port)), [(2, 1, 6, "", ("10.9.9.9", port))])[1]
+    try:
+        T = ("target.example", 8080)
+        P = ("px", 3128)
+        cases = [  # (options, environment, secure, expected dial, tunnel)
+            (dict(http_proxy_host="px", http_proxy_port=3128), {}, False, P, True),
+            (dict(http_proxy_host="px", http_proxy_port=3128, http_no_proxy=["target.example"]), {}, False, T, False),
+            (dict(http_proxy_host="px", http_proxy_port=3128, http_no_proxy=[".example"]), {}, False, T, False),
+            (dict(http_proxy_host="px", http_proxy_port=3128, http_no_proxy=["other"]), {}, False, P, True),
+            ({}, {"http_proxy": "http://px:3128"}, False, P, True),
+            ({}, {"http_proxy": "http://px:3128"}, True, T, False),
+            ({}, {"https_proxy": "http://px:3128"}, True, P, True),
+            # the proxy comes from the environment, the exemption from the option
+            (dict(http_no_proxy=["target.example"]), {"http_proxy": "http://px:3128"}, False, T, False),
+            (dict(http_no_proxy=["*"]), {"https_proxy": "http://px:3128"}, True, T, False),
+            (dict(http_no_proxy=[".example"]), {"http_proxy": "http://px:3128"}, False, T, False),
+            (dict(http_no_proxy=["other"]), {"http_proxy": "http://px:3128"}, False, P, True),
+            # the option, when given, decides alone
+            (dict(http_no_proxy=["other"]), {"http_proxy": "http://px:3128", "no_proxy": "target.example"}, False, P, True),
+            ({}, {"http_proxy": "http://px:3128", "no_proxy": "target.example"}, False, T, False),
+        ]
+        for opts, env, secure, want, tunnel in cases:
+            for k in saved:
+                os.environ.pop(k, None)
+            os.environ.update(env)
+            del asked[:]
+            try:
+                pi = h.proxy_info(**opts)
+                lst, need, auth = h._get_addrinfo_list(T[0], T[1], secure, pi)
+            except Exception as ex:  # noqa
+                probs.append(f"options {opts} env {env} secure={secure}: {type(ex).__name__}: {ex}")
+                continue
+            if asked != [want] or bool(need) != tunnel:
+                probs.append(f"options {opts} env {env} secure={secure}: dialled {asked} tunnel={need}, expected {[want]} tunnel={tunnel}")
+    finally:
+        h.socket.getaddrinfo = real
+        for k, v in saved.items():
+            os.environ.pop(k, None)
+            if v is not None:
+                os.environ[k] = v
+    return probs
+
+
 def search(tier="quick", seed=0):
     n = 0
     for h, ents in grid():
@@ -142,7 +193,7 @@ def search(tier="quick", seed=0):
         r = check_exempt(h, ents)
         if r:
             return dict(found=True, witness=dict(kind="exempt", host=h, no_proxy=list(ents)), detail=r, tried=n)
-    for kind, fn in (("env", check_env), ("tunnel", check_tunnel)):
+    for kind, fn in (("env", check_env), ("options", check_options), ("tunnel", check_tunnel)):
         p = fn()
         n += 1
         if p:
@@ -167,7 +218,7 @@ def concretise(res, tier, seed):
 def replay_witness(w):
     if w.get("kind") == "exempt":
         return check_exempt(w["host"], tuple(w["no_proxy"])) is not None
-    return bool({"env": check_env, "tunnel": check_tunnel}[w["kind"]]())
+    return bool({"env": check_env, "options": check_options, "tunnel": check_tunnel}[w["kind"]]())
 
 
 if __name__ == "__main__":
